@@ -20,7 +20,7 @@ func init() {
 		Run:      runC06,
 		Examples: true,
 		Meta: core.PropertyMeta{
-			Explanation: "P1: in the four entry points that accept a per-node function, the message handed to node n's queue is d.Message on the 'no function' edge and exactly d.PerNodeArgFn(d.Message, n.id) (n = this iteration's node) on the other; a node is skipped only on the '!IsValid()' edge of that result and is then neither enqueued nor counted (C02-T4 re-run); Unicast/RPCCall pass d.Message unchanged. P2: at most one enqueue per node and iteration, at most one sendMsg per dequeued request, one SendMsg per sendMsg. P3: Multicast performs at most as many confirmation receives as it enqueued and none on the no-send-waiting edge; Unicast performs at most one, none on that edge, where it registers no router. P4: handlers registered for one-way methods ignore their reply channel and never call SendMessage (generated files + template). P5: the send confirmation is a deferred call registered before any return of sendMsg, guarded only by waitForSend, which is exactly 'callType != nil && !noSendWaiting'; callType is written only by getCallOptions. P6: generated one-way stubs forward in, opts... and the per-node function faithfully.",
+			Explanation: "P1: in the four entry points that accept a per-node function, the message handed to node n's queue is d.Message on the 'no function' edge and exactly d.PerNodeArgFn(d.Message, n.id) (n = this iteration's node) on the other; a node is skipped only on the '!IsValid()' edge of that result and is then neither enqueued nor counted (C02-T4 re-run); Unicast/RPCCall pass d.Message unchanged. P2: at most one enqueue per node and iteration, at most one sendMsg per dequeued request, one SendMsg per sendMsg. P3: Multicast performs at most as many confirmation receives as it enqueued and none on the no-send-waiting edge; Unicast performs at most one, none on that edge, where it registers no router. P4: handlers registered for one-way methods ignore their reply channel and never call SendMessage (generated files + template). P5: the send confirmation is a deferred call registered before any return of sendMsg, guarded only by waitForSend, which is exactly 'callType != nil && !noSendWaiting'; callType is written only by getCallOptions. P6: generated one-way stubs forward in, opts... and the per-node function faithfully. P11: the stream is reset only for a write in progress (C08-B3 re-run). P12: the server's receive loop returns only on its read error. P13 (known finding): the per-write watcher resets the stream all calls share.",
 			NotDecided:  "'Exactly once when reachable' (liveness, transport); message *equality* at the receiving node (codec, C13).",
 			Trusted:     commonTrust,
 		},
@@ -641,6 +641,43 @@ func c06P12(l *core.Ledger, r *rt, rule string) {
 	sx.AllInstrs(sl.fn, func(_ sx.Node, in ssa.Instruction) {
 		if ifi, ok := in.(*ssa.If); ok && isErrNonNil(ifi, m) != 0 {
 			errEdges = append(errEdges, errEdge(ifi, m, true))
+		}
+	})
+	// err == io.EOF / errors.Is(err, X): the matching edge implies a read error as well
+	sx.AllInstrs(sl.fn, func(_ sx.Node, in ssa.Instruction) {
+		ifi, ok := in.(*ssa.If)
+		if !ok {
+			return
+		}
+		v, pos := condOf(ifi)
+		t, f := sx.CondEdges(ifi)
+		if !pos {
+			t, f = f, t
+		}
+		switch x := v.(type) {
+		case *ssa.BinOp:
+			if x.Op != token.EQL && x.Op != token.NEQ {
+				return
+			}
+			a, b := x.X, x.Y
+			if !sx.All(sx.Origins(a), m) {
+				a, b = b, a
+			}
+			if !sx.All(sx.Origins(a), m) {
+				return
+			}
+			if c, isC := b.(*ssa.Const); isC && c.IsNil() {
+				return // the plain nil test, handled above
+			}
+			if x.Op == token.EQL {
+				errEdges = append(errEdges, t)
+			} else {
+				errEdges = append(errEdges, f)
+			}
+		case *ssa.Call:
+			if calleeIs(&x.Call, "errors.Is", "errors.As") && len(x.Call.Args) > 0 && sx.All(sx.Origins(x.Call.Args[0]), m) {
+				errEdges = append(errEdges, t)
+			}
 		}
 	})
 	key := fnKey(sl.fn) + "/returns-only-on-read-error"
